@@ -12,6 +12,10 @@ def catalogue(tier, mutant=None):
         J["B2.O%d" % no] = builderunit.job("Builder.FinishCommand.contract.out%d" % no, "builder_finishcommand.cc", ["FinishCommand"], ["NOUT=%d" % no], mutant, canaries=4, str_cap=48,
                                            bound="an edge with %d outputs; exit status 0-255, deps/restat/generator/rspfile/dry-run/keeprsp, start time, in-memory and on-disk mtimes, every callee failure symbolic" % no,
                                            weight=3.0)
+    for msvc in (0, 1):
+        J["B4.M%d" % msvc] = builderunit.job("Builder.ExtractDeps.contract.%s" % ("msvc" if msvc else "gcc"), "builder_extractdeps.cc", ["ExtractDeps"], ["MSVC=%d" % msvc], mutant,
+                                             canaries=1 if msvc else 3, str_cap=48,
+                                             bound="deps = %s; depfile presence, read status (ok / not found / other error), content empty or not, parser verdicts, 0-2 dependencies, keepdepfile, removal result symbolic" % ("msvc" if msvc else "gcc"))
     w = 5 if tier == "thorough" else 4
     J["B3"] = builderunit.job("Builder.Build.loop.contract", "builder_build.cc", ["Build", "SetFailureCode"], ["VF_WAITS=%d" % w], mutant, canaries=4, str_cap=48, timeout=3000, weight=100.0,
                               bound="3 edges (one possibly phony), -k 1..3, at most %d waits (completions with status 0-255, token wake-ups, interrupt), every CanRunMore/FindWork/StartEdge/FinishCommand outcome symbolic" % w)
